@@ -753,3 +753,23 @@ Proof.
   - repeat constructor; discriminate.
   - eexists. split; reflexivity.
 Qed.
+
+(* The side condition "no NaN" of [numeric_set] cannot be dropped: a NaN is
+   stored whatever the bounds are, and sending it again reports a change again
+   (NaN 0x7fc00000 on a port with range 0.0 .. 1.0 holding 0.5). *)
+Lemma nan_not_clamped :
+  exists e loc old b,
+    onan (p_min e) /\ onan (p_max e) /\ bounds_ordered fkey (p_min e) (p_max e) /\
+    nonan old /\ f_is_nan b = true /\
+    exists o1 o2, rParamFCb e loc old [Af b] = Some (b, o1) /\
+                  rParamFCb e loc b [Af b] = Some (b, o2) /\
+                  undo_events o2 = [undo_event loc Af b b].
+Proof.
+  exists {| p_name := [103]; p_hash := false; p_min := Some 0; p_max := Some 1065353216; p_map := [] |},
+         [47; 103], 1056964608, 2143289344.
+  split; [intros b E; inversion E; reflexivity|].
+  split; [intros b E; inversion E; reflexivity|].
+  split; [intros lo hi E1 E2; inversion E1; inversion E2; subst; cbn; lia|].
+  split; [reflexivity|]. split; [reflexivity|].
+  eexists. eexists. split; [reflexivity|]. split; reflexivity.
+Qed.
